@@ -90,9 +90,30 @@ def main(tier):
                 continue
             ev.add_obl('unknown')
             inconc.append('%s: %s' % (nm, (out.strip().splitlines() or ['no output'])[-1][:200]))
+        # ---- engine P: cpl's state-saving block must not write into the start point the caller's F() returned
+        from vp.checks import c10_save
+        sb = [c for c in c10_save.configs(tier) if c['block'] == 'save']
+        for r in common.run_jobs('vp.checks.c10_save', 'job', sb):
+            cfg = {k: v for k, v in r['cfg'].items() if not k.startswith('_')}
+            if not r['ok']: herr.append('%s: %s' % (json.dumps(cfg), r['err'])); continue
+            res = r['res']
+            for key in ('total', 'unsat', 'sat', 'unknown'): ev.obl[key] += res['obl'][key]
+            ev.solver_s += res['solver_s']
+            for e in res['errors']: herr.append('%s: %s' % (json.dumps(cfg), e))
+            if not res['reach']: herr.append('%s: save block never executed' % json.dumps(cfg))
+            for s_ in res['sat']:
+                if s_.get('prop') != 'C09': continue
+                key = c10_save.finding_key(cfg, s_['label'])
+                if any(v[0] == key for v in violations): continue
+                rp = common.write_replay('C09', json.dumps(cfg, sort_keys=True) + s_['label'], {'property': 'C09', 'cfg': cfg, 'label': s_['label'], 'model': s_['model']})
+                rep, why = c10_save.replay_on_build(rp)
+                if rep is None: herr.append('%s: counterexample for "%s" %s' % (json.dumps(cfg), s_['label'], why))
+                elif key in known: known_hits.append((key, known[key]['what']))
+                else: violations.append((key, rp, '%s: %s -> %s' % (json.dumps(cfg), s_['label'], rep)))
         ev.cov.update({'states': max(1, confirmed), 'transitions': max(1, ev.obl['total']), 'traces_validated_against_impl': confirmed,
                        'conditions': len(names), 'entry_points': ENTRY,
-                       'functions_encoded': ['option parsing/validation and main loops of conelp, coneqp, cpl (and through them lp, qp, socp, sdp, cp, gp, op.solve)'],
+                       'functions_encoded': ['option parsing/validation and main loops of conelp, coneqp, cpl (and through them lp, qp, socp, sdp, cp, gp, op.solve)',
+                                             "cvxprog.cpl: the state-saving block of the relaxed line search on symbols with the caller's start point read-only (engine P, z3)"],
                        'bounds': 'maxiters in [-2,%d]; override pairs g in [1,3], m in [1,%d]; refinement in [-2,2]; one fixed tiny problem per entry point; per-condition timeout %d s' % (6 if tier == 'quick' else 12, 4 if tier == 'quick' else 8, tmo)})
         ev.assumptions += ['numerics run concretely on one fixed problem per entry point (the option value is the symbolic quantity)',
                            'bit-identical repeatability across call histories and thread interleavings is NOT decided (global state inside BLAS/LAPACK and GIL-released C code cannot be encoded)',
@@ -103,5 +124,10 @@ def main(tier):
 
 def replay_main(path):
     d = json.load(open(path))
+    if d.get('cfg', {}).get('part') == 'saveblock':
+        from vp.checks import c10_save
+        rep, why = c10_save.replay_on_build(path)
+        print(('REPRODUCED on the real build: %s' % rep) if rep else why)
+        return 1 if rep else 0
     print('recorded: %s(%s) -> %s' % (d['condition'], d['args'], d['native_result']))
     return 1 if d['native_result'] != 'True' else 0
